@@ -93,6 +93,7 @@ func (dc *dcache2) isEmpty(c *square) bool {
 	s := 1 << (c.n - 1) // half side
 	_, d := dc.evaluate(c.v.AddScalar(s))
 	// compare to the center/corner distance
+	verifEv5("dc2.empty", c.v.X, c.v.Y, 0, int(c.n), verifBool(math.Abs(d) >= dc.hdiag[c.n]))
 	return math.Abs(d) >= dc.hdiag[c.n]
 }
 
